@@ -58,7 +58,11 @@ def canon(v):
             return ['DateTime', str(v)]
         if isinstance(v, datetime.datetime):
             return ['DateTime', v.isoformat()]
-        if isinstance(v, (list, tuple)):
+        if isinstance(v, datetime.date):
+            return ['date', v.isoformat()]
+        if isinstance(v, tuple):
+            return ['tuple', [canon(x) for x in v]]
+        if isinstance(v, list):
             return ['list', [canon(x) for x in v]]
         return _raw(v)
     except BaseException as e:      # noqa - total by construction
